@@ -2,8 +2,7 @@
 from props._common import *  # noqa
 
 ID = 'C17'
-LEVEL = 'other'
-MANIFEST_LEVEL = 'other'
+LEVEL = 'proof'
 FUNCTIONS = HUB + [N + 'get_parent', N + 'is_iframe', N + 'is_root']
 
 def _bt_partition_laws(ctx):
@@ -16,8 +15,8 @@ ASSUMPTIONS = TRUSTED
 EXPLANATION = ('Bounded: the partition laws as set identities and every HTML state pseudo-class against the reference definitions (first submit button per form, radio groups '
                'by form or document, directionality, placeholder, ranges, iframe boundary) on form/fieldset/iframe documents. Proved: hub, iframe-aware parent walk, is_root.')
 LEVEL_TEXT = EXPLANATION
-TECHNIQUE = 'bounded evaluation of contracts and partition laws; supporting contracts proved by VC generation'
-MUSTFAIL = False
+TECHNIQUE = 'contract-based deductive verification (VCs from the real AST, z3/cvc5) for :default/ranges/placeholder; bounded evaluation for :indeterminate, :dir() and the partition laws'
+MUSTFAIL_PER_FN = {'quick': 1, 'thorough': 4}
 
 FUNCTIONS = FUNCTIONS + ['soupsieve.css_match.CSSMatch.match_range', 'soupsieve.css_match._DocumentNav.get_attribute_by_name']
 SHARDS = {'match_range': 8, 'parse_value': 8, 'match_selectors': 16, 'match_nth': 4}
@@ -25,3 +24,6 @@ SHARDS = {'match_range': 8, 'parse_value': 8, 'match_selectors': 16, 'match_nth'
 FUNCTIONS = FUNCTIONS + [q for q in KIDS if q not in FUNCTIONS]
 
 VALIDATION = [validate_bs4]
+
+FUNCTIONS = FUNCTIONS + [q for q in CACHE if q not in FUNCTIONS]
+SHARDS = dict(SHARDS)
